@@ -189,7 +189,7 @@ def method_try_product(ctx):
     okc = len(tc) == 1 and tc[0].callee == tb and tc[0].args == (("arg", b.bodyid),)
     ctx.check(okc, "C18.tryproduct-calls", t.site, "MethodTryProduct.call", found="; ".join(tstr(c.callee) for c in tc), required="each nested transaction calls its own target with the argument")
     flags = [h for h in facts_in_body(ex, t, HwAssign) if const_pred(1)(h.rhs)]
-    okf = len(flags) == 1 and domain_class(flags[0].domain) == RUN_GATED and flags[0].lhs[0] == "obj"
+    okf = len(flags) == 1 and domain_class(flags[0].domain) == RUN_GATED and not is_sync(flags[0].domain) and flags[0].lhs[0] == "obj"  # combinational: reported in the cycle of the call
     ctx.check(okf, "C18.tryproduct-success-flag", flags[0].site if flags else t.site, "MethodTryProduct.success", found="; ".join(f"{tstr(h.domain)} += {tstr(h.lhs)}.eq(1)" for h in flags),
               required="the success flag is raised in a run-gated domain inside the target's transaction (1 iff that target ran)")
     if okc and okf:
@@ -235,6 +235,10 @@ def check(ctx):
     method_try_product(ctx)
     nonexclusive_wrapper(ctx)
     collector(ctx)
+    from . import c18x
+
+    c18x.filter_default_kept(ctx)
+    c18x.product_default_combiner(ctx)
 
 
 MUTANTS = [
